@@ -124,6 +124,19 @@ Theorem C09_dump_load_iso :
 Proof. exact dump_load_iso. Qed.
 Print Assumptions C09_dump_load_iso.
 
+(* the registry ("context_dict") written by the dump has exactly one entry per object reachable
+   from the root — a shared EV is dumped once — nothing else, and every entry is the object itself *)
+Theorem C09_dump_each_object_once :
+  forall (Sc : Type) (h : heap Sc) (root : addr) (rank : addr -> nat),
+    (forall a o b, alookup a h = Some o -> In b (o_refs o) -> (rank b < rank a)%nat) ->
+    (forall a, reachable h root a -> alookup a h <> None) ->
+    forall fuel c, (rank root < fuel)%nat ->
+    to_registry fuel h root = Some c ->
+    NoDup (map fst c) /\ (forall k, In k (map fst c) <-> reachable h root k)
+    /\ (forall k e, alookup k c = Some e -> alookup k h = Some e).
+Proof. exact dump_once. Qed.
+Print Assumptions C09_dump_each_object_once.
+
 (* consequences of the isomorphism, in terms of access paths (lists of reference positions):
    the same path reaches the corresponding object ... *)
 Theorem C09_paths_preserved :
@@ -144,6 +157,22 @@ Theorem C09_sharing_preserved :
       (a1 = a2 <-> follow h' root' p1 = follow h' root' p2).
 Proof. exact sharing_preserved. Qed.
 Print Assumptions C09_sharing_preserved.
+
+(* "the loaded object carries the complete state": whatever can be read from the simulator by
+   following references to any depth (class, scalar attributes, at every level) is the same in
+   the loaded heap *)
+Theorem C09_loaded_state_complete :
+  forall (Sc : Type) (h h' : heap Sc) (root root' : addr) (f : addr -> addr),
+    iso h root h' root' f ->
+    (forall a, reachable h root a -> alookup a h <> None) ->
+    forall fuel, unfold fuel h' root' = unfold fuel h root.
+Proof.
+  exact (fun Sc h h' root root' f Hiso Hdef fuel =>
+           eq_ind (f root) (fun r => unfold fuel h' r = unfold fuel h root)
+                  (unfold_preserved Sc h h' root root' f Hiso Hdef fuel root (reach_root h root))
+                  root' (iso_root _ _ _ _ _ _ Hiso)).
+Qed.
+Print Assumptions C09_loaded_state_complete.
 
 (* the hypotheses of C09_dump_load_iso are satisfiable; the concrete dump/load of a simulator whose
    EV is referenced from its EVSE, ev_history, event_history and a pending UnplugEvent *)
